@@ -1209,7 +1209,7 @@ def field_store_kinds(repo, tier):
                                 stores.append((n, t1, isinstance(t, (ast.Tuple, ast.List))))
                 if not stores:
                     continue
-                kk = K.Kinds(fn, anns, mk.call_kinds, call_parts=mk.call_parts)
+                kk = K.Kinds(fn, anns, mk.call_kinds, call_parts=mk.call_parts, owner=cname, method_call=mk.method_call)
                 why = []
                 for n, t1, unpacked in stores:
                     allowed = K.ann_kinds(anns[t1.attr])
